@@ -73,6 +73,71 @@ def reject_rule(rep, prog, rule):
                         "width" if not okw else "height", s[:200]))
 
 
+RAW_COPY = ("from_raw_parts", "from_raw_parts_mut", "copy_from_slice", "clone_from_slice",
+            "copy_nonoverlapping", "copy", "transmute", "transmute_copy", "align_to", "align_to_mut",
+            "read_unaligned", "write_unaligned", "cast")
+
+
+def convert_all(rep, prog, rule):
+    """every destination component is produced by into_component()"""
+    from ..sym import Sym, fmt
+    rep.rule(rule, "in change_type_of_pixel_components_typed (and the crate-local helpers and "
+             "closures it runs on the rows) destination components are produced by "
+             "IntoPixelComponent::into_component only: no raw reinterpretation or bulk copy "
+             "(from_raw_parts, copy_from_slice, transmute, pointer casts, copy_nonoverlapping) "
+             "moves source components into the destination. Two component types of the same size "
+             "(i32 / f32) have different value ranges; a copy is only the identity conversion when "
+             "the types are the same type, which only a TypeId comparison can establish (such a "
+             "guard makes the instance undecided, any other guard or none a violation)")
+    roots = [f for f in prog.fns.values()
+             if f.name == "change_components_type::change_type_of_pixel_components_typed"]
+    if len(roots) != 1:
+        rep.unk(rule, "anchor", "", "change_type_of_pixel_components_typed not found")
+        return
+    seen = {}
+    work = [roots[0]]
+    while work:
+        f = work.pop()
+        if f.id in seen:
+            continue
+        seen[f.id] = f
+        for c in f.calls():
+            for t in prog.call_targets(c):
+                if t.file == roots[0].file and t.id not in seen:
+                    work.append(t)
+        for cl in f.closures():
+            if cl.id not in seen:
+                work.append(cl)
+    n_conv = 0
+    for f in sorted(seen.values(), key=lambda x: x.id):
+        rep.touch(f)
+        sym = Sym(f)
+        for c in f.calls():
+            nm = c.method or c.name.rsplit("::", 1)[-1]
+            if nm == "into_component":
+                n_conv += 1
+                continue
+            if nm not in RAW_COPY or prog.call_targets(c):
+                continue
+            if nm == "cast" and "ptr" not in c.name:
+                continue
+            facts = sym.facts_at(c.bb)
+            typeid = any("TypeId" in fmt(cc) or "type_id" in fmt(cc) for cc, v in facts)
+            key = "%s|%s" % (f.name.rsplit("::", 1)[-1], nm)
+            if typeid:
+                rep.unk(rule, key, c.at, "raw copy / reinterpretation `%s` behind a TypeId comparison" % nm)
+            else:
+                rep.bad(rule, key, c.at,
+                        "%s uses `%s` on the components: values reach the destination without "
+                        "into_component (conditions on the path: %s); component types of equal size "
+                        "such as i32 and f32 are then copied bit for bit instead of being converted"
+                        % (f.name, nm, "; ".join("%s is %s" % (fmt(cc)[:60], v) for cc, v in facts[:3]) or "none"))
+    if n_conv:
+        rep.ok(rule, "into_component", roots[0].loc, "%d into_component call(s) in %d function(s), no raw copy"
+               % (n_conv, len(seen)), nontrivial=True)
+    rep.floor(rule, "into_component calls on the conversion path", n_conv, 1)
+
+
 def run(rep, tier):
     cfgs = ["x86"] if tier == "quick" else ["x86", "arm", "wasm"]
     for cfg, prog in programs(cfgs):
@@ -81,6 +146,7 @@ def run(rep, tier):
         rep.call(reject_rule, rep, prog, "C17.reject")
         rep.call(type_tables.t_types, rep, prog, "C17.table")
         rep.call(round_trip, rep, prog, "C17.round-trip")
+        rep.call(convert_all, rep, prog, "C17.convert-all")
     if tier == "thorough":
         rep.set_cfg("witness")
         rep.call(witness.report, rep, "C17.types", ["W4"])
